@@ -1,5 +1,4 @@
 import sys
-from functools import lru_cache
 
 from xlcalculator.xlfunctions import xl, func_xltypes
 
@@ -8,9 +7,12 @@ from . import ast_nodes, xltypes
 
 class EvaluatorContext(ast_nodes.EvalContext):
 
-    def __init__(self, evaluator, ref):
-        super().__init__(evaluator.namespace, ref)
+    def __init__(self, evaluator, ref, seen=None):
+        super().__init__(evaluator.namespace, ref, seen)
         self.evaluator = evaluator
+        # Values of the cells this formula refers to, so that a cell used
+        # several times in one formula is evaluated once.
+        self._cell_values = {}
 
     @property
     def cells(self):
@@ -20,15 +22,21 @@ class EvaluatorContext(ast_nodes.EvalContext):
     def ranges(self):
         return self.evaluator.model.ranges
 
-    @lru_cache(maxsize=None)
     def eval_cell(self, addr):
-        # Check for a cycle.
-        if addr in self.seen:
-            raise RuntimeError(
-                f'Cycle detected for {addr}:\n- ' + '\n- '.join(self.seen))
-        self.seen.append(addr)
+        if addr in self._cell_values:
+            return self._cell_values[addr]
 
-        return self.evaluator.evaluate(addr, None)
+        # Check for a cycle: `seen` is the chain of cells whose evaluation
+        # led to this context, the context's own cell last.
+        path = self.seen + ([self.ref] if self.ref not in self.seen else [])
+        if addr in path:
+            raise RuntimeError(
+                f'Cycle detected for {addr}:\n- ' + '\n- '.join(path))
+
+        context = self.evaluator._get_context(addr, path)
+        value = self.evaluator.evaluate(addr, context)
+        self._cell_values[addr] = value
+        return value
 
 
 class Evaluator:
@@ -40,8 +48,8 @@ class Evaluator:
             if namespace is not None else xl.FUNCTIONS.copy()
         self.cache_count = 0
 
-    def _get_context(self, ref):
-        return EvaluatorContext(self, ref)
+    def _get_context(self, ref, seen=None):
+        return EvaluatorContext(self, ref, seen)
 
     def resolve_names(self, addr):
         # Although defined names have been resolved in Model.create_node()
